@@ -116,8 +116,8 @@ def rule_tokenizer(ctx, rep):
 
 
 # ---------------------------------------------------------------------------------------------------------
-WORDS = ['one', 'twenty', 'first', 'the', 'and', 'point', 'One']
-SEPS = [' ', ', ', '. ', '-', '\u200b', '\u00a0\t', ' \u200b, ', '\ufeff ']
+WORDS = ['one', 'twenty', 'first', 'the', 'and', 'One']
+SEPS = [' ', ', ', '-', '\u200b', '\u00a0\t', '\ufeff ']
 
 
 def _text_work(job):
@@ -163,7 +163,7 @@ def rule_text_rewrite(ctx, rep):
     texts = set()
     nw = depth_for(ctx, 3, 3)
     for n in range(0, nw + 1):
-        wl, sl = (WORDS, SEPS) if n <= 2 or ctx.tier == 'thorough' else (WORDS[:2] + WORDS[3:4], SEPS[:2] + SEPS[4:5] + SEPS[7:8])
+        wl, sl = (WORDS, SEPS) if n <= 2 or ctx.tier == 'thorough' else (WORDS[:2] + WORDS[3:4], SEPS[:2] + SEPS[3:4] + SEPS[5:6])
         for ws in itertools.product(wl, repeat=n):
             for ss in itertools.product(sl, repeat=max(0, n - 1)):
                 body = ''.join(w + (ss[i] if i < len(ss) else '') for i, w in enumerate(ws))
@@ -213,7 +213,7 @@ def _finish_text(rep, R, res, texts):
     rep.check(not bad_id, R, 'no-number-identical', 'texts without a number are returned identical',
               'threshold %s: %r contains no number but is returned as %r' % (bad_id[0] if bad_id else (0, '', '')))
     rep.check(not bad_panic, R, 'no-panic', 'no panic site reached', 'threshold %s: %r: %s' % (bad_panic[0] if bad_panic else (0, '', '')))
-    rep.floor(R, len(res), 8000, 'texts rewritten')
+    rep.floor(R, len(res), 4000, 'texts rewritten')
     rep.info(R, 'inventory', '%d texts' % len(texts))
 
 
